@@ -281,6 +281,8 @@ pub fn gen_entry(r: &mut Rng, kind: &str, ctx: &mut Ctx, big: bool) -> Option<St
                     3 => (sc(r, 32), 0, vec![]),
                     _ => { let k = r.below(40) as usize; (sc(r, 8), 0, r.bytes(k)) }
                 };
+                // all-zero typed resources go through the types' `Default` impls in the interpreter
+                let (a, b) = if idk < 4 && r.below(6) == 0 { (0, 0) } else { (a, b) };
                 subs.push(vec![r.below(2).to_string(), sc(r, 16).to_string(), idk.to_string(), a.to_string(), b.to_string()]);
                 blobs.push(blob);
             }
@@ -370,6 +372,60 @@ pub fn gen_tbl(r: &mut Rng, tier: &str, emit: &mut dyn FnMut(String)) {
             let ks: &[&str] = if *t == "cedt" && i % 4 != 0 { &["chbs", "cfmws", "cxims"] } else { kinds };
             let h = history(r, t, ks, len, true, &[], None);
             emit(h);
+        }
+    }
+    // opaque entries (decided on the table level only: checksum, Length, handles): `derive(Default)`
+    // values of the public entry structs, crate and caller-defined types through `add_structure<T>`,
+    // mixed into histories of ordinary entries
+    {
+        let variants: [(&str, &[&str]); 5] = [
+            ("madt", &["dflt/0", "dflt/1", "dflt/2", "dflt/3", "dflt/4", "dflt/5", "dflt/6", "dflt/7", "dflt/8", "GAS", "USER"]),
+            ("srat", &["dflt/10", "RA"]),
+            ("hmat", &["dflt/11"]),
+            ("pptt", &["dflt/12"]),
+            ("hest", &["dflt/20", "dflt/21", "dflt/22", "dflt/23", "dflt/24", "NOTIF25", "NOTIF26", "HUSER"]),
+            // (no RQSC: `RQSC::add_controller` takes the Length growth from the controller's own length field,
+            //  which `new` / `add_resource` maintain and a `Default` value leaves at 0 — DESIGN 17.7)
+        ];
+        let reps = if thorough { 40 } else { 4 };
+        for (t, vs) in variants.iter() {
+            let kinds = TABLES.iter().find(|(n, _)| n == t).unwrap().1;
+            for v in vs.iter() {
+                for rep in 0..reps {
+                    let mut ctx = Ctx::default();
+                    let mut line = header(r, t);
+                    let before = if rep == 0 { 0 } else { r.below(4) };
+                    let after = if rep == 0 { 0 } else { r.below(4) };
+                    let mut imsic_used = false;
+                    let mut push_ord = |r: &mut Rng, line: &mut String, ctx: &mut Ctx, imsic_used: &mut bool| {
+                        let k = *r.pick(kinds);
+                        if k == "imsic" && *imsic_used { return; }
+                        if let Some(tok) = gen_entry(r, k, ctx, false) {
+                            if k == "imsic" { *imsic_used = true; ctx.has_imsic = true; }
+                            line.push_str(" ; ");
+                            line.push_str(&tok);
+                        }
+                    };
+                    for _ in 0..before { push_ord(r, &mut line, &mut ctx, &mut imsic_used); }
+                    let ncopies = if rep % 2 == 1 { 2 } else { 1 };
+                    for _ in 0..ncopies {
+                        let tok = match *v {
+                            "GAS" => format!("dflt/40,{},{},{},{},{}/-/-/-", r.below(4), sc(r, 8), sc(r, 8), r.below(5), sc(r, 64)),
+                            "USER" => format!("dflt/41,{},{},{}/-/-/-", sc(r, 8), sc(r, 16), sc(r, 64)),
+                            "HUSER" => format!("dflt/42,{},{},{}/-/-/-", sc(r, 8), sc(r, 16), sc(r, 64)),
+                            "RA" => format!("dflt/10/-/-/{}", *r.pick(&["en", "pd=7", "pd=4096,en", "en,pd=1,pd=2"])),
+                            "NOTIF25" => format!("dflt/25,{},{},{},{}/-/-/-", sc(r, 16), r.below(2), sc(r, 32), sc(r, 32)),
+                            "NOTIF26" => format!("dflt/26,{},{},{},{}/-/-/-", sc(r, 16), r.below(2), sc(r, 32), sc(r, 32)),
+                            "dflt/8" => { if imsic_used { continue; } imsic_used = true; "dflt/8/-/-/-".to_string() }
+                            d => format!("{}/-/-/-", d),
+                        };
+                        line.push_str(" ; ");
+                        line.push_str(&tok);
+                    }
+                    for _ in 0..after { push_ord(r, &mut line, &mut ctx, &mut imsic_used); }
+                    emit(line);
+                }
+            }
         }
     }
     // boundary histories: counts across 255→257 entries; Length across 256, 65536 bytes
@@ -532,6 +588,15 @@ pub fn gen_ent(r: &mut Rng, tier: &str, emit: &mut dyn FnMut(String)) {
             let mut ctx = Ctx::default();
             if let Some(t) = gen_entry(r, k, &mut ctx, true) { emit(t); }
         }
+    }
+    // opaque entries standalone (C14 only: raw form = serialised form, byte-sum helper, six sinks, twice)
+    for v in [0u64, 1, 2, 3, 4, 5, 6, 7, 8, 10, 11, 12, 20, 21, 22, 23, 24, 30] { emit(format!("dflt/{}/-/-/-", v)); }
+    for _ in 0..(if thorough { 2000 } else { 60 }) {
+        emit(format!("dflt/40,{},{},{},{},{}/-/-/-", r.below(4), sc(r, 8), sc(r, 8), r.below(5), sc(r, 64)));
+        emit(format!("dflt/41,{},{},{}/-/-/-", sc(r, 8), sc(r, 16), sc(r, 64)));
+        emit(format!("dflt/25,{},{},{},{}/-/-/-", sc(r, 16), r.below(2), sc(r, 32), sc(r, 32)));
+        emit(format!("dflt/26,{},{},{},{}/-/-/-", sc(r, 16), r.below(2), sc(r, 32), sc(r, 32)));
+        emit(format!("dflt/10/-/-/{}", *r.pick(&["en", "pd=7", "pd=4096,en", "en,pd=1,pd=2"])));
     }
     // C11: option sets exhaustively — all subsets, and all orders/repetitions up to length 4 (3 for the larger sets)
     let s = |v: &[&str]| -> Vec<String> { v.iter().map(|x| x.to_string()).collect() };
